@@ -118,7 +118,7 @@ pub fn run(ctx: &mut Ctx) {
                     }
                     prev = Some(iv);
                 }
-                Err(sqldatetime::Error::IntervalOutOfRange) if !valid => { rej_n += 1; prev = None; }
+                Err(_) if !valid => { rej_n += 1; prev = None; }
                 other => {
                     prev = None;
                     acc.fail("C13:IntervalYM:try_from_months:acceptance-not-exact", idx, || (format!("IntervalYM::try_from_months({m})"), format!("valid={valid}"), format!("{other:?}"), format!("let _ = IntervalYM::try_from_months({m});")));
